@@ -189,7 +189,7 @@ pub fn run_cli_inj(args: &[&str], cwd: &Path, envs: &[(&str, String)], root: &Pa
 pub fn bisync_io_faults(mode: &str, seed: u64, thorough: bool) -> (u64, Vec<Violation>) {
     use rayon::prelude::*;
     let scs = scenarios(seed, thorough);
-    let errnos: Vec<i32> = if thorough { vec![28, 5, 13] } else { vec![13] };
+    let errnos: Vec<i32> = if thorough { vec![28, 5, 13, -1] } else { vec![13, -1] };
     let base = Scratch::new("e3iof");
     // (errno, read-side calls counted too)
     let kinds: Vec<(i32, bool)> = errnos.iter().map(|e| (*e, false)).chain([(13, true)]).chain(if thorough { vec![(5, true)] } else { vec![] }).collect();
